@@ -135,6 +135,7 @@ def make_pool():
     c32 = numpy.tril(P["cov8"]).astype(numpy.float32)
     P["cov8_f32_lower"] = c32
     asym = P["cov8"].copy()
+    asym[5, 6] += 0.21
     asym[3, 6] += 0.37          # a measured (one-frame-lag) covariance estimate is not exactly symmetric
     asym[7, 2] -= 0.11
     P["cov8_asym"] = asym
